@@ -36,6 +36,8 @@ func main() {
 		cmdReplay(args)
 	case "denom":
 		cmdDenom(args)
+	case "store":
+		cmdStore(args)
 	default:
 		fmt.Fprintf(os.Stderr, "unknown subcommand %q\n", sub)
 		os.Exit(2)
